@@ -23,6 +23,7 @@ func AllRules() []*Rule {
 	rs = append(rs, masterRule())
 	rs = append(rs, round2Rules()...)
 	rs = append(rs, glueRule())
+	rs = append(rs, round3Rules()...)
 	return rs
 }
 
@@ -35,14 +36,14 @@ var Props = map[string]PropInfo{}
 
 func init() {
 	Props["C06"] = PropInfo{
-		Explanation: "Static rules over the resolved program (SSA + VTA call graph) decide the structural necessary conditions of the SHARED-lock interval: every exported sqlittle.DB method that reaches a pager.page implementation brackets all page-reaching calls between a tested RLock and a deferred RUnlock on the same handle (LOCK-1); RUnlock has no other caller and the driver reads only through those methods (LOCK-2); RLock invalidates cached state (LOCK-3); the unix pager requests SQLite's pending byte then shared range, non-blocking, returns both errors, releases the pending byte by defer on every exit and records/clears the shared lock correctly (PAGER); descriptors of the database file are not closed behind another handle's back (LOCK-6, known finding). LOCK-7: nothing the pager runs while it holds the SHARED lock (RLock after the lock is taken, page, CheckReservedLock) opens-and-closes or closes a descriptor, so the handle cannot drop its own lock; LOCK-8: an error from Database.RLock means the pager lock is not held (every caller returns without RUnlock on such an error).",
+		Explanation: "Static rules over the resolved program (SSA + VTA call graph) decide the structural necessary conditions of the SHARED-lock interval: every exported sqlittle.DB method that reaches a pager.page implementation brackets all page-reaching calls between a tested RLock and a deferred RUnlock on the same handle (LOCK-1); RUnlock has no other caller and the driver reads only through those methods (LOCK-2); RLock invalidates cached state (LOCK-3); the unix pager requests SQLite's pending byte then shared range, non-blocking, returns both errors, releases the pending byte by defer on every exit and records/clears the shared lock correctly (PAGER); descriptors of the database file are not closed behind another handle's back (LOCK-6, known finding). LOCK-7: nothing the pager runs while it holds the SHARED lock (RLock after the lock is taken, page, CheckReservedLock) opens-and-closes or closes a descriptor, so the handle cannot drop its own lock; LOCK-8: an error from Database.RLock means the pager lock is not held (every caller returns without RUnlock on such an error). LOCK-9: opening a handle (outside any lock) reads the header page only.",
 		NotDecided:  "Behaviour of other processes, lock state as observed from outside, the Windows pager (not demonstrable here); the rules decide that sqlittle requests and releases the right byte ranges on the right paths.",
 	}
 }
 
 func init() {
 	Props["C12"] = PropInfo{
-		Explanation: "ERR-1/ERR-2 enumerate every error-returning call and every error test in the API-reachable functions of db, the root package and the driver, and decide by SSA value-flow (locals, captured cells, struct fields, fmt.Errorf) and path enumeration that no error value is dropped or tested-and-swallowed; SKIP-1 decides that no scan adapter of the root package can return `continue` without having delivered the row or recorded an error.",
+		Explanation: "ERR-1/ERR-2 enumerate every error-returning call and every error test in the API-reachable functions of db, the root package and the driver, and decide by SSA value-flow (locals, captured cells, struct fields, fmt.Errorf) and path enumeration that no error value is dropped or tested-and-swallowed; SKIP-1 decides that no scan adapter of the root package can return `continue` without having delivered the row or recorded an error. ERR-5 (path-sensitive): an error that may be non-nil is never merely compared and replaced by nil; CACHE-2: a page that failed to parse is not cached.",
 		NotDecided:  "That every failure produces an error value in the first place (e.g. a short read that happens to parse); the rules show that no code path loses an error value that exists.",
 	}
 	Props["C17"] = PropInfo{
@@ -57,7 +58,7 @@ func init() {
 		NotDecided:  "What a real writer does in each lock state and that proceeding under RESERVED yields the last committed state (true because SQLite does not touch the file before EXCLUSIVE — an assumption about SQLite).",
 	}
 	Props["C08"] = PropInfo{
-		Explanation: "LOCK-3: RLock invalidates; TXN-1: every exported db function revalidates (resolveDirty) before any page read or cache lookup; RD-TABLE: dirty is cleared only after page 1 was re-read and re-parsed and the fresh header installed; TXN-3: the page cache survives only if the change counter was established unchanged, the schema cache only if the cookie was; TXN-5: the mapping must follow the file (violated: known finding). GLUE: OpenFile/newDatabase wire the pager, the <file>-journal name, a dirty handle and a fresh cache; the locking API methods call RLock before Schema.",
+		Explanation: "LOCK-3: RLock invalidates; TXN-1: every exported db function revalidates (resolveDirty) before any page read or cache lookup; RD-TABLE: dirty is cleared only after page 1 was re-read and re-parsed and the fresh header installed; TXN-3: the page cache survives only if the change counter was established unchanged, the schema cache only if the cookie was; TXN-5: the mapping must follow the file (violated: known finding). GLUE: OpenFile/newDatabase wire the pager, the <file>-journal name, a dirty handle and a fresh cache; the locking API methods call RLock before Schema. PAGE-RO/FMT-overflow: cached pages are never written; CACHE-2: only pages parsed without error are cached; LOCK-9: opening reads the header only; DRV-10: a prepared statement keeps nothing between executions; HDR-raw: the header bytes are interpreted by parseHeader only.",
 		NotDecided:  "History-dependent aspects: that SQLite bumps the counters as assumed and cache coherence for particular interleavings.",
 	}
 	Props["C09"] = PropInfo{
@@ -65,7 +66,7 @@ func init() {
 		NotDecided:  "The actual crash-point semantics of a dying SQLite writer (a statement about SQLite's write ordering).",
 	}
 	Props["C15"] = PropInfo{
-		Explanation: "HDR: the stream layout of the struct decoded from the header equals fileformat2 §1.3 and, from the accepting paths of parseHeader (path enumeration with literal extraction), the accepted value set of every header field is computed (whole domain for 1- and 2-byte fields) and compared with the spec; fields that do not affect reading must not influence acceptance. RD-TABLE/TXN-1: the header is re-validated at the start of every transaction before any page read; ERR-2: the header error is propagated.",
+		Explanation: "HDR: the stream layout of the struct decoded from the header equals fileformat2 §1.3 and, from the accepting paths of parseHeader (path enumeration with literal extraction), the accepted value set of every header field is computed (whole domain for 1- and 2-byte fields) and compared with the spec; fields that do not affect reading must not influence acceptance. RD-TABLE/TXN-1: the header is re-validated at the start of every transaction before any page read; ERR-2: the header error is propagated. HDR-raw: no header field is read outside parseHeader; LOCK-3: every RLock marks the handle for revalidation.",
 		NotDecided:  "Real WAL/UTF-16 files beyond their header bytes (only the header matters to sqlittle).",
 	}
 }
@@ -120,22 +121,22 @@ func init() {
 		NotDecided:  "That the binary search finds the first equal entry on real trees; PK/index resolution against SQLite's catalogue (C10).",
 	}
 	Props["C10"] = PropInfo{
-		Explanation: "GRAM: every grammar value the parser reports is defined by the element's own production; ROWIDALIAS: the rowid-alias decision table and its call sites; IDXCOL: collation inheritance with a case-insensitive column lookup; SCHEMA-err via ERR-1/2 exceptions (unparseable table ⇒ error, unparseable index ⇒ omitted); AUTOIDX: the automatic-index counter advances only when an index was added (rowid tables).",
+		Explanation: "GRAM: every grammar value the parser reports is defined by the element's own production; ROWIDALIAS: the rowid-alias decision table and its call sites; IDXCOL: collation inheritance with a case-insensitive column lookup; SCHEMA-err via ERR-1/2 exceptions (unparseable table ⇒ error, unparseable index ⇒ omitted); AUTOIDX: the automatic-index counter advances only when an index was added (rowid tables). NEWCT: column-level PRIMARY KEY/UNIQUE become keys on that column with its collation and direction; IDENT-VERBATIM: the parser never rewrites the case of a name; TOK-ADV: the tokenizer advances by exactly the token it read.",
 		NotDecided:  "Automatic-index de-duplication and appended key columns beyond the counter discipline — SQLite catalogue rules implemented as name arithmetic.",
 	}
 }
 
 func init() {
 	Props["C05"] = PropInfo{
-		Explanation: "PANIC: every index, slice, division, make, byte-order read, non-comma-ok assertion and explicit panic in the API-reachable functions (goyacc skeleton excepted) is discharged on every path reaching it (path enumeration with loop generations) by a difference-constraint prover fed with the path's branch literals, definitions, checked callee contracts, preconditions proven at every call site and field invariants proven at every store; NIL: results of functions that may return nil are dereferenced only under a non-nil test or after a validating loop; TERM-1: every call-graph cycle spends recursion budget; TERM-2: every loop is a range, progress, shrink or bounded-growth loop; CONTRACT: the contracts themselves; GRAM-0: parser value-stack indices.",
+		Explanation: "PANIC: every index, slice, division, make, byte-order read, non-comma-ok assertion and explicit panic in the API-reachable functions (goyacc skeleton excepted) is discharged on every path reaching it (path enumeration with loop generations) by a difference-constraint prover fed with the path's branch literals, definitions, checked callee contracts, preconditions proven at every call site and field invariants proven at every store; NIL: results of functions that may return nil are dereferenced only under a non-nil test or after a validating loop; TERM-1: every call-graph cycle spends recursion budget; TERM-2: every loop is a range, progress, shrink or bounded-growth loop; CONTRACT: the contracts themselves; GRAM-0: parser value-stack indices. CACHE-2: a page that failed to parse (a typed nil pointer) never enters the cache; ERR-5.",
 		NotDecided:  "The magnitude of bounds (a self-referencing interior page is re-traversed exponentially often before the budget runs out; a 2 GiB declared payload is `bounded`), stack depth of readQuoted on megabytes of doubled quotes, memory use of the page cache; mutation of a field by a callee between a length test and its use is not tracked (no such pattern on the tree).",
 	}
 	Props["C16"] = PropInfo{
-		Explanation: "local: GRAM-0/1 (every semantic value is defined by its own production; stale value-stack slots are reported with the production that can leak into them); deterministic: GLOB-1 over package sql (keyword/operator maps, parser tables and flags never written after init) and GRAM-3 (fresh lexer and parser per Parse); total: PANIC over the tokenizer, lexer, sql.go helpers and (through GRAM-0) the action switch, TERM-1/2 for the tokenizer loops and readQuoted's recursion.",
+		Explanation: "local: GRAM-0/1 (every semantic value is defined by its own production; stale value-stack slots are reported with the production that can leak into them); deterministic: GLOB-1 over package sql (keyword/operator maps, parser tables and flags never written after init) and GRAM-3 (fresh lexer and parser per Parse); total: PANIC over the tokenizer, lexer, sql.go helpers and (through GRAM-0) the action switch, TERM-1/2 for the tokenizer loops and readQuoted's recursion. TOK-LOCAL: the tokenizer carries only its position and result between tokens and Lex overwrites every value field; TOK-ADV: exact advance per token; IDENT-VERBATIM.",
 		NotDecided:  "That accepted statements are SQLite's language; the multi-byte bareword advance in tokenize (wrong tokens or an error, never a panic).",
 	}
 	Props["C18"] = PropInfo{
-		Explanation: "FRESH: every []byte stored through a *[]byte destination or returned by a scan helper has only fresh origins (make, string conversion, append onto nil/fresh), the file pager returns fresh buffers; SCANPURE: scanning never stores into the row; PANIC/CONTRACT: every row index is guarded, type-switch defaults are dead given the producers (REC-table, ROWMAP); CONV: the constants of the documented conversions (base 10, 64 bit, 'g'/-1, the two time layouts, unix seconds) and zero values for NULL/missing columns.",
+		Explanation: "FRESH: every []byte stored through a *[]byte destination or returned by a scan helper has only fresh origins (make, string conversion, append onto nil/fresh), the file pager returns fresh buffers; SCANPURE: scanning never stores into the row; PANIC/CONTRACT: every row index is guarded, type-switch defaults are dead given the producers (REC-table, ROWMAP); CONV: the constants of the documented conversions (base 10, 64 bit, 'g'/-1, the two time layouts, unix seconds) and zero values for NULL/missing columns. CONV-exact: integer text goes through the exact ParseInt first; ROWMAP: a stored NULL is not replaced by the column default.",
 		NotDecided:  "The numerical content of strconv/time conversions and float→int edge cases.",
 	}
 }
